@@ -90,9 +90,9 @@ Definition check_case (c : ecase) : bool :=
 (* where a replay stops: index of the first step the model refuses (or whose choice count differs) *)
 Fixpoint first_refused (c : ecase) (crashes : nat) (s : state) (steps : list (action * nat)) (i : nat) : nat :=
   match steps with
-  | [] => 9999
+  | [] => 999
   | (a, n) :: r =>
-      if negb (Nat.eqb (count_choices c crashes s) n) then (1000 + i)%nat
+      if negb (Nat.eqb (count_choices c crashes s) n) then (500 + i)%nat
       else match step s a with
            | None => i
            | Some s' => first_refused c (match a with ACrash | APersistFail => S crashes | _ => crashes end) s' r (S i)
